@@ -705,6 +705,7 @@ fn reg_order_sweep(rep: &mut Report, max_len: usize) {
 /// `pe.rs` RVA -> section memory through the `pe_memory_at_rva` hook vs the Lean model
 /// (`FH/PeMem.lean`): section descriptions whose RVA range and data length need not agree (empty,
 /// inverted, larger or smaller than the data, overlapping .rdata/.xdata), RVAs at every boundary.
+#[cfg(feature = "pemem")]
 fn pemem_grid(rep: &mut Report, p: &mut Prng, n_random: usize) {
     use framehop::verif_hooks as hooks;
     let bounds: [u32; 12] = [0, 1, 0x1000, 0x107f, 0x1080, 0x1081, 0x1100, 0x2000, 0x7fff_ffff, 0x8000_0000, 0xffff_fffe, 0xffff_ffff];
@@ -838,10 +839,13 @@ pub fn gen_unusual_pe_func(p: &mut Prng, begin: u32) -> PeFuncSpec {
 pub fn run(tier: &str, seed: u64) -> Report {
     let mut rep = Report::new("pe");
     reg_order_sweep(&mut rep, if tier == "thorough" { 8 } else { 5 });
+    #[cfg(feature = "pemem")]
     {
         let mut pm = Prng::new(seed.wrapping_mul(0x51ed_270b_0a35_9d1f).wrapping_add(7));
         pemem_grid(&mut rep, &mut pm, if tier == "thorough" { 200_000 } else { 20_000 });
     }
+    #[cfg(not(feature = "pemem"))]
+    rep.notes.push("built without the pe_memory_at_rva hook: FH/PeMem.lean is not tied on this run".into());
     let mut p = Prng::new(seed.wrapping_mul(0x6a09_e667_f3bc_c909).wrapping_add(5));
     let n: u64 = if tier == "thorough" { 4000 } else { 250 };
     for id in 0..n {
